@@ -85,8 +85,41 @@ def _leafy(v):
     return len(s) < 400
 
 
+def replay_engine(rep):
+    """specification -> code for the text list engine: every text of <= 6 characters over {a, b, ';', ' '} with the four
+    parameter combinations, outcome computed by TLC from the as-coded model (ParserText.tla), replayed on the real engine"""
+    from cryptoparser.common.parse import ParserText
+    from cryptodatahub.common.exception import InvalidValue
+    out = os.path.join(rep.build, 'gen_text.ndjson')
+    res = tlc.require_ok(tlc.run('Gen_ParserText', workers=1, env={'OUT_FILE': out}, timeout=900), 'Gen_ParserText')
+    rep.add_tlc(res, 'Gen_ParserText (as-coded list engine on all texts <= 6 chars; implements the RFC 9110 list rule)')
+    n = 0
+    for line in open(out):
+        c = json.loads(line)
+        n += 1
+        data = bytes(c['text'])
+        parser = ParserText(data)
+        try:
+            parser.parse_string_array('v', ';', separator_spaces=' ' if c['spaces'] else '', skip_empty=c['skip'],
+                                      max_item_num=None if c['maxitems'] < 0 else c['maxitems'])
+            got = {'k': 'ok', 'items': [list(x.encode('ascii')) for x in parser['v']], 'pos': parser.parsed_length}
+        except InvalidValue:
+            got = {'k': 'INV', 'items': [], 'pos': 0}
+        except Exception as e:  # pylint: disable=broad-except
+            got = {'k': type(e).__name__, 'items': [], 'pos': 0}
+        if got != c['res']:
+            params = 'spaces=%s,skip_empty=%s,max_item_num=%s' % (c['spaces'], c['skip'], c['maxitems'])
+            rep.violation('ParserText.parse_string_array|list-engine-differs-from-model|%s' % params,
+                          'the text list engine gives another result than its as-coded model for %r (%s)' % (data, params),
+                          {'text': data.decode('ascii'), 'params': params, 'model': c['res'], 'implementation': got})
+    rep.extra['engine_cases_replayed'] = n
+    rep.traces += n
+    rep.evaluations += n
+
+
 def run(rep):
     from .. import corpus
+    replay_engine(rep)
     thorough = rep.tier == 'thorough'
     cases = []
     meta = []
